@@ -82,6 +82,10 @@ CHECKS = {
    "bounded-exhaustive enumeration of filter parameters x tiny sequences, and of planted-match geometries (every target/query placement relative to the tube grid and the recycling tick, every substitution pattern) on the real Filter with a real in-memory sorter; brute-force oracle over all window pairs",
    "Space A: every (k,n,e,offset) with k in {2,3,4}, n<=8, e<=2, offset up to e+3 and positive threshold x 6 targets x every query of length n..6 (7) over {a,c,g,t}, and self comparison of every sequence of length <=7 (8); space B: k=4, n in {9,12,16}, 20 parameter sets, a plant at every (t0,q0) of a 40x100 grid with every pattern of <=e substitutions (quick: thinned pairs) so that every diagonal residue and every tick phase occurs, including tube widths below k; space C: PALS-like parameters on sequences of 90..420 letters.",
    "kmerindex.MinKmerLen lowered by the harness; sequences over a,c,g,t; hit coverage uses the band the merger builds from a hit ([-Diagonal, -Diagonal+offset+e-1], query interval [From,To))."),
+ "C15": (E3, "exploration", "DESIGN.md §3 C15",
+   "exhaustive enumeration of planted-repeat geometries (position grid over one tube period and both sequence ends, repeat lengths, edit variants, strands, self/non-self, four parameter sets) over fixed backgrounds on the real PALS pipeline; soundness oracle on every hit (independent global alignment), recall oracle for plants comfortably above the thresholds",
+   "Backgrounds are constants (xorshift with fixed seeds; 1300-1700 letters; thorough adds two more pairs incl. a low-complexity one); (minHitLen,minId) in {(30,0.9),(50,0.9),(50,0.94),(80,0.85)}; repeat lengths minHitLen+10, 1.5x, 3x and the length boundary minHitLen-2..+2 with indels; 5 target positions x 44 query positions; variants: exact, substitutions at every third position, 2-3 substitutions, indels of length 1-2 at every tenth position; reverse-complemented copies; self comparison with forward and reverse copies. About 40k pipeline runs quick, 210k thorough.",
+   "pals.MaxKmerLen lowered to 8 by the harness; recall demanded only for identity >= minId+0.05 and length >= 1.5 minHitLen (a heuristic claim otherwise); random long backgrounds (2-20 kb) of the quantifier text are replaced by fixed ones - this family does not sample."),
 }
 PENDING = {}  # id -> reason, for properties not (yet) claimed
 
